@@ -12,7 +12,9 @@ from common import fx, unfx, enc_list, close, rq
 REQUIRED = ['ipsw_saturated', 'gtransport_saturated', 'aipsw_outcome_saturated', 'aipsw_weights_balanced',
             'aipsw_weights_saturated_unstab', 'rd_rr_def', 'target_outcomes_irrelevant', 'aipsw_fit_generated', 'ipsw_fit_generated',
             'gtransport_fit_generated', 'gtransport_fit_saturated', 'gtransport_fit_target_outcomes_irrelevant',
-            'ipsw_sampling_weight_generated', 'aipsw_sampling_weight_generated', 'treatment_site_generated']
+            'ipsw_sampling_weight_generated', 'aipsw_sampling_weight_generated', 'treatment_site_generated',
+            # Props/C16_Observers.lean (round 4): in the tables derived from the source, summary() assigns no state
+            'ipsw_reporting_methods_observe', 'gtransport_reporting_methods_observe', 'aipsw_reporting_methods_observe']
 RULE = ('random combined data sets: a study sample (1-2 categorical modifiers, <= 8 strata, both arms and both outcome '
         'values in every stratum) plus a target sample with at least one row per stratum; target rows carry A = NaN, and '
         'Y = NaN or junk values (both variants are run and must agree); cells: IPSW+treatment model, GTransportFormula, '
@@ -24,8 +26,12 @@ ASSUMPTIONS = ['statsmodels GLM solves the score equations of the saturated samp
 TOL = dict(rtol=1e-6, atol=1e-8)
 
 
-def combined(rng, junk):
-    df, covs = gen.cat_dataset(rng, outcome='binary', ncov=int(rng.integers(1, 3)), max_strata=8)
+def combined(rng, junk, outcome='binary', sign=1):
+    """outcome: 'binary' | 'normal' | 'count' (gen.cat_dataset: normal values around 1.5 .. 8.5 with sd 2, counts with
+    mean 1.6 .. 4.4 -- stratum means outside [0, 1]); sign = -1 mirrors a normal outcome (all stratum means negative)"""
+    df, covs = gen.cat_dataset(rng, outcome=outcome, ncov=int(rng.integers(1, 3)), max_strata=8)
+    if sign != 1:
+        df['Y'] = sign * df['Y']
     df['S'] = 1
     strata = df[covs].drop_duplicates().values.tolist()
     rows = []
@@ -35,7 +41,10 @@ def combined(rng, junk):
     tgt = pd.DataFrame(rows, columns=covs)
     # junk = False: A, Y missing outside the sample;  True: junk Y;  'AY': treatment AND outcome recorded (junk) there
     tgt['A'] = rng.integers(0, 2, size=len(tgt)).astype(float) if junk == 'AY' else np.nan
-    tgt['Y'] = rng.integers(0, 2, size=len(tgt)).astype(float) if junk else np.nan
+    if outcome == 'binary':
+        tgt['Y'] = rng.integers(0, 2, size=len(tgt)).astype(float) if junk else np.nan
+    else:
+        tgt['Y'] = np.round(rng.normal(40.0, 25.0, size=len(tgt)), 2) if junk else np.nan
     tgt['S'] = 0
     out = pd.concat([df, tgt], ignore_index=True)
     out = out.iloc[rng.permutation(len(out))].reset_index(drop=True)
@@ -66,7 +75,7 @@ def closed_form(df, covs):
             num, den = Fraction(0), Fraction(0)
             for s in S:
                 cell = (sid == s) & smp & (df['A'].values == a)
-                cm = Fraction(int(df['Y'].values[cell].sum()), int(cell.sum()))
+                cm = sum(Fraction(float(v)) for v in df['Y'].values[cell]) / int(cell.sum())
                 nt = int(((sid == s) & (True if g else ~smp)).sum()) if g else int(((sid == s) & ~smp).sum())
                 num += nt * cm
                 den += nt
@@ -102,10 +111,55 @@ def enc(df, covs, fl=True):
                 obs=enc_list(df['S'].astype(int).tolist(), str))
 
 
-def estimators(df, covs, g, stab, treat, which, grepr=bool, extra=()):
+SUMMARY_DECIMALS = [0, 1, 2, 3, 4, 6]
+OUTCOME_TYPE = {'binary': 'binary', 'normal': 'normal', 'count': 'poisson'}      # gen.cat_dataset kind -> zEpid option
+
+
+def draw_after(rng):
+    """reporting calls made between fit() and reading risk_difference / risk_ratio (round 4): every class here has one
+    reporting method, summary(decimal=4); drawn in 2 of 3 cases, with the number of decimals drawn too"""
+    u = rng.uniform()
+    if u < 1 / 3:
+        return None
+    return [['summary', {} if u < 0.45 else {'decimal': int(rng.choice(SUMMARY_DECIMALS))}]]
+
+
+def apply_after(e, after):
+    import contextlib
+    import io
+    for meth, kwargs in (after or []):
+        with contextlib.redirect_stdout(io.StringIO()):
+            getattr(e, meth)(**kwargs)
+
+
+def after_d(chk, e, which, after, case):
+    """D: the results read after the reporting calls are exactly the ones fit() stored (a report computes nothing on
+    them); the closed-form predicates that follow judge the values read AFTER the calls"""
+    if not after:
+        return
+    at_fit = (float(e.risk_difference), float(e.risk_ratio))
+    apply_after(e, after)
+    now = (float(e.risk_difference), float(e.risk_ratio))
+    chk.count('after:' + '+'.join('%s(%s)' % (m, ','.join('%s=%s' % kv for kv in sorted(k.items()))) for m, k in after))
+    chk.d(now == at_fit, '%s: risk_difference / risk_ratio read after %s = the values fit() stored (exact)'
+          % (which, ', '.join(m + '()' for m, _ in after)), dict(case, at_fit=at_fit, after_reporting=now))
+
+
+def estimators(df, covs, g, stab, treat, which, grepr=bool, extra=(), ytype='binary', positional=False):
     """grepr: how the boolean option `generalize` is handed over (bool / numpy.bool_ / int: all legitimate truth values);
-    extra: further columns of the caller's frame that no model uses (they may hold missing values)"""
+    extra: further columns of the caller's frame that no model uses (they may hold missing values);
+    ytype: the documented outcome_type option of GTransportFormula / AIPSW.outcome_model (IPSW has none: it averages
+    whatever the outcome column holds);
+    positional (round 4): every argument handed over positionally in the documented order
+      IPSW / AIPSW(df, exposure, outcome, selection, generalize=True, weights=None),
+      GTransportFormula(df, exposure, outcome, selection, outcome_type='binary', generalize=True, weights=None),
+      IPSW.sampling_model / .treatment_model(model_denominator, model_numerator='1', bound=None, stabilized=True, print_results),
+      AIPSW.sampling_model(model_denominator, model_numerator='1', stabilized=True, print_results=True),
+      AIPSW.treatment_model as IPSW's, GTransportFormula.outcome_model(model, print_results=True),
+      AIPSW.outcome_model(model, outcome_type='binary', print_results=True)"""
     from zepid.causal.generalize import IPSW, GTransportFormula, AIPSW
+    if positional:
+        return estimators_positional(df, covs, g, stab, treat, which, grepr, extra, ytype)
     cols = covs + ['A', 'Y', 'S'] + list(extra)
     sc = gen.sat_cov(covs)
     g = grepr(g)
@@ -122,9 +176,15 @@ def estimators(df, covs, g, stab, treat, which, grepr=bool, extra=()):
         d2 = df[cols].copy()
         smp = d2['S'] == 1
         sid = pd.Series(gen.strata_ids(d2, covs), index=d2.index)
-        p = d2.loc[smp, 'A'].groupby(sid[smp]).transform('mean')
+        # inverse probability of the arm a row is in, among the sampled rows of its stratum: n_s / n_{a,s} (= 1/p and
+        # 1/(1-p) when every sampled row is in arm 1 or arm 0); rows in neither arm (a third arm, an unrecorded
+        # exposure) keep weight 1 -- they are in neither of the two risks compared
+        ns = smp.astype(int).groupby(sid).transform('sum')
         d2['tw'] = 1.0
-        d2.loc[smp, 'tw'] = np.where(d2.loc[smp, 'A'] == 1, 1 / p, 1 / (1 - p))
+        for arm in (0, 1):
+            m = smp & (d2['A'] == arm)
+            na = m.astype(int).groupby(sid).transform('sum')
+            d2.loc[m, 'tw'] = (ns[m] / na[m]).astype(float)
         e = IPSW(d2, exposure='A', outcome='Y', selection='S', generalize=g, weights='tw')
         e.sampling_model(sc, stabilized=stab, print_results=False)
         e.fit()
@@ -134,7 +194,11 @@ def estimators(df, covs, g, stab, treat, which, grepr=bool, extra=()):
         e.treatment_model(sc, stabilized=stab, print_results=False)
         e.fit()
     elif which == 'GTransportFormula':
-        e = GTransportFormula(frame[cols], exposure='A', outcome='Y', selection='S', generalize=g)
+        if ytype == 'binary':
+            e = GTransportFormula(frame[cols], exposure='A', outcome='Y', selection='S', generalize=g)
+        else:
+            e = GTransportFormula(frame[cols], exposure='A', outcome='Y', selection='S', generalize=g,
+                                  outcome_type=OUTCOME_TYPE[ytype])
         e.outcome_model(gen.sat_out(covs), print_results=False)
         e.fit()
     else:
@@ -142,8 +206,32 @@ def estimators(df, covs, g, stab, treat, which, grepr=bool, extra=()):
         e.sampling_model(sc, stabilized=stab, print_results=False)
         if treat:
             e.treatment_model(sc, stabilized=stab, print_results=False)
-        e.outcome_model(gen.sat_out(covs), print_results=False)
+        if ytype == 'binary':
+            e.outcome_model(gen.sat_out(covs), print_results=False)
+        else:
+            e.outcome_model(gen.sat_out(covs), outcome_type=OUTCOME_TYPE[ytype], print_results=False)
         e.fit()
+    return e
+
+
+def estimators_positional(df, covs, g, stab, treat, which, grepr, extra, ytype):
+    from zepid.causal.generalize import IPSW, GTransportFormula, AIPSW
+    fr = df[covs + ['A', 'Y', 'S'] + list(extra)]
+    sc, so, g = gen.sat_cov(covs), gen.sat_out(covs), grepr(g)
+    if which == 'IPSW':
+        e = IPSW(fr, 'A', 'Y', 'S', g)
+        e.sampling_model(sc, '1', None, stab, False)
+        e.treatment_model(sc, '1', None, stab, False)
+    elif which == 'GTransportFormula':
+        e = GTransportFormula(fr, 'A', 'Y', 'S', OUTCOME_TYPE[ytype], g)
+        e.outcome_model(so, False)
+    else:
+        e = AIPSW(fr, 'A', 'Y', 'S', g)
+        e.sampling_model(sc, '1', stab, False)
+        if treat:
+            e.treatment_model(sc, '1', None, stab, False)
+        e.outcome_model(so, OUTCOME_TYPE[ytype], False)
+    e.fit()
     return e
 
 
@@ -234,18 +322,105 @@ def gtransfit_k(chk, drv, e, df, covs, g, wcol, case):
     # call site of the outcome GLM: fitted on the sampled rows (outcomes observed there), frequency-weighted iff a
     # weight column is given -- the generated call site (rows, weight column or none) against the fitted model object
     smp = df['S'].values == 1
+    # statsmodels' formula interface drops the rows it is handed that lack a model variable (missing='drop'): sampled
+    # rows with an unrecorded exposure (round-4 data family) are handed over and not fitted
+    used = smp & df[covs + ['A', 'Y']].notna().all(axis=1).values
     fwm = np.asarray(e._outcome_model.model.freq_weights, dtype=float)
-    want_fw = df.loc[smp, wcol].values.astype(float) if wcol is not None else np.ones(int(smp.sum()))
-    chk.k(rep['status'] == 'ok' and int(rep.get('nfit', -1)) == int(smp.sum()) == int(e._outcome_model.nobs)
+    want_fw = df.loc[used, wcol].values.astype(float) if wcol is not None else np.ones(int(used.sum()))
+    chk.k(rep['status'] == 'ok' and int(rep.get('nfit', -1)) == int(smp.sum()) and int(used.sum()) == int(e._outcome_model.nobs)
           and (rep.get('fw') == '1') == (wcol is not None) and fwm.shape == want_fw.shape
           and bool(np.array_equal(fwm, want_fw)),
           'GTransportFormula.outcome_model: GLM fitted on the sampled rows with the frequency weights read from its source',
           dict(case, model=rep, impl_nobs=float(e._outcome_model.nobs)))
 
 
+def other_arms(dfn, covs, seed, third_arm):
+    """the combined data set plus SAMPLED rows whose exposure is neither 0 nor 1 (round 4): 0-3 rows per stratum with an
+    unrecorded exposure (NaN) and a recorded outcome (mostly 1: unlike either arm), and -- `third_arm` -- 1-5 rows per
+    stratum in a third trial arm A = 2 (risk 0.85).  The estimators compare exposure == 1 with exposure == 0: those rows
+    belong to neither risk; they do count as members of the sample (sampling model) and of the population."""
+    r = np.random.default_rng(seed + 13)
+    rows = []
+    for st in dfn[covs].drop_duplicates().values.tolist():
+        for _ in range(int(r.integers(0, 4))):
+            rows.append(list(st) + [np.nan, float(r.uniform() < 0.9), 1])
+        if third_arm:
+            for _ in range(int(r.integers(1, 6))):
+                rows.append(list(st) + [2.0, float(r.uniform() < 0.85), 1])
+    if not any(np.isnan(x[-3]) for x in rows):
+        rows.append(dfn[covs].iloc[0].tolist() + [np.nan, 1.0, 1])
+    out = pd.concat([dfn[covs + ['A', 'Y', 'S']], pd.DataFrame(rows, columns=covs + ['A', 'Y', 'S'])], ignore_index=True)
+    for c in covs + ['S']:
+        out[c] = out[c].astype(int)
+    return out.iloc[r.permutation(len(out))].reset_index(drop=True)
+
+
+def judge_cell(chk, drv, e, df, covs, cf, which, g, after, case, what):
+    after_d(chk, e, which, after, case)
+    want = [float(cf[(g, 1)] - cf[(g, 0)]), float(cf[(g, 1)] / cf[(g, 0)])]
+    case['impl'] = [float(e.risk_difference), float(e.risk_ratio)]
+    case['want'] = want
+    chk.d(close(e.risk_difference, want[0], **TOL) and close(e.risk_ratio, want[1], **TOL),
+          '%s RD/RR = sample cell means of exposure 1 and exposure 0 standardized to the %s (%s)'
+          % (which, 'whole population' if g else 'non-sampled rows', what), case)
+    if which == 'GTransportFormula':
+        gtransfit_k(chk, drv, e, df, covs, g, None, case)
+
+
+def arms_cell(chk, drv, seed, index_kind, which, g, stab, treat, after):
+    """sampled rows in neither arm.  IPSW is run with a user-supplied treatment-weight column (inverse probability of
+    the row's arm among the sampled rows of its stratum) on data with a third arm AND unrecorded exposures;
+    GTransportFormula / AIPSW (documented: binary exposures only) on data with unrecorded exposures."""
+    _, dfn, _, covs = make_frames(seed, index_kind)
+    dfx = other_arms(dfn, covs, seed, third_arm=(which == 'IPSW'))
+    cf = closed_form(dfx, covs)
+    case = {'estimator': which, 'generalize': g, 'stabilized': stab, 'treatment_model': treat, 'after': after,
+            'data': gen.describe(dfx, covs, data_seed=seed, index=index_kind,
+                                 sampled_rows_exposure_missing=int((dfx['A'].isna() & (dfx['S'] == 1)).sum()),
+                                 sampled_rows_third_arm=int((dfx['A'] == 2).sum())),
+            'cell': {'fn': 'arms_cell', 'args': dict(seed=seed, index_kind=index_kind, which=which, g=g, stab=stab,
+                                                     treat=treat, after=after)}}
+    chk.case(case, (hash(dfx.to_csv()), 'arms', which, g, stab, treat))
+    chk.count('other_arms/%s/%s' % (which, 'generalize' if g else 'transport'))
+    try:
+        e = estimators(dfx, covs, g, stab, treat, which)
+    except Exception as ex:      # noqa: BLE001
+        chk.d(False, '%s runs on a sample with rows in neither arm' % which, dict(case, impl_error=repr(ex)))
+        return
+    judge_cell(chk, drv, e, dfx, covs, cf, which, g, after, case,
+               'sampled rows with an unrecorded exposure%s belong to neither arm' % (' / in a third arm' if which == 'IPSW' else ''))
+
+
+def ytype_cell(chk, drv, seed, index_kind, kind, sign, which, g, stab, treat, after):
+    """a non-binary outcome (documented: outcome_type 'normal' / 'poisson' of GTransportFormula and AIPSW.outcome_model;
+    IPSW averages any numeric outcome): the standardized stratum-specific MEAN outcomes, which is what the classes
+    report as `risk_difference` / `risk_ratio` for these types; junk outcome values recorded outside the sample"""
+    dfy, covs = combined(np.random.default_rng(seed + 17), junk=True, outcome=kind, sign=sign)
+    if index_kind == 'shifted':
+        dfy.index = np.arange(len(dfy)) + 700
+    elif index_kind == 'shuffled':
+        dfy.index = np.random.default_rng(seed + 1).permutation(len(dfy))
+    cf = closed_form(dfy, covs)
+    case = {'estimator': which, 'generalize': g, 'stabilized': stab, 'treatment_model': treat, 'after': after,
+            'outcome': kind, 'sign': sign,
+            'data': gen.describe(dfy, covs, data_seed=seed, index=index_kind,
+                                 sample_outcome_range=[float(dfy.loc[dfy.S == 1, 'Y'].min()),
+                                                       float(dfy.loc[dfy.S == 1, 'Y'].max())]),
+            'cell': {'fn': 'ytype_cell', 'args': dict(seed=seed, index_kind=index_kind, kind=kind, sign=sign, which=which,
+                                                      g=g, stab=stab, treat=treat, after=after)}}
+    chk.case(case, (hash(dfy.to_csv()), 'ytype', which, g, stab, treat))
+    chk.count('outcome_%s/%s/%s' % (kind, which, 'generalize' if g else 'transport'))
+    try:
+        e = estimators(dfy, covs, g, stab, treat, which, ytype=kind)
+    except Exception as ex:      # noqa: BLE001
+        chk.d(False, '%s runs with a %s outcome' % (which, kind), dict(case, impl_error=repr(ex)))
+        return
+    judge_cell(chk, drv, e, dfy, covs, cf, which, g, after, case, '%s outcome' % kind)
+
+
 def run(chk, drv, rng, tier):
     nds = 20 if tier == 'quick' else 60
-    for _ in range(nds):
+    for di in range(nds):
         seed = int(rng.integers(0, 2 ** 31))
         index_kind = ['default', 'shifted', 'shuffled'][int(rng.integers(0, 3))]
         dfj, dfn, dfa, covs = make_frames(seed, index_kind)
@@ -286,6 +461,9 @@ def run(chk, drv, rng, tier):
                         grepr = [bool, np.bool_, int][int(rng.integers(0, 3))]
                         case['generalize_passed_as'] = grepr.__name__
                         snap = shared.copy(deep=True)
+                        # call convention of the variant runs below (junk-Y frame, junk A and Y): keyword or positional
+                        pos = bool(rng.integers(0, 2)) and treat != 'column'
+                        case['positional_calls'] = pos
                         try:
                             e = estimators(shared, covs, g, stab, treat, which, grepr)
                         except Exception as ex:      # noqa: BLE001
@@ -302,7 +480,16 @@ def run(chk, drv, rng, tier):
                               close(e.risk_ratio, first[1], rtol=1e-12, atol=1e-14),
                               '%s: a second fit() on the same object reproduces the first' % which,
                               dict(case, first=first, second=[float(e.risk_difference), float(e.risk_ratio)]))
-                        ej = estimators(dfj, covs, g, stab, treat, which)
+                        # reporting calls between fit() and reading the results (drawn): what follows judges the values
+                        # read after them
+                        case['after'] = draw_after(rng)
+                        after_d(chk, e, which, case['after'], case)
+                        try:
+                            ej = estimators(dfj, covs, g, stab, treat, which, positional=pos)
+                        except Exception as ex:      # noqa: BLE001
+                            chk.d(False, '%s runs when every argument is given positionally in the documented order' % which,
+                                  dict(case, impl_error=repr(ex)))
+                            continue
                         want_rd = float(cf[(g, 1)] - cf[(g, 0)])
                         want_rr = float(cf[(g, 1)] / cf[(g, 0)])
                         case['impl'] = [float(e.risk_difference), float(e.risk_ratio)]
@@ -312,7 +499,9 @@ def run(chk, drv, rng, tier):
                               (which, 'whole population' if g else 'non-sampled rows'), case)
                         chk.d(close(ej.risk_difference, e.risk_difference, rtol=1e-12, atol=1e-14) and
                               close(ej.risk_ratio, e.risk_ratio, rtol=1e-12, atol=1e-14),
-                              '%s unaffected by outcome values recorded outside the sample' % which, case)
+                              '%s unaffected by outcome values recorded outside the sample%s' %
+                              (which, ' (arguments given positionally in the documented order)' if pos else ''),
+                              dict(case, impl_junk_Y=[float(ej.risk_difference), float(ej.risk_ratio)]))
                         # treatment and outcome recorded (junk) outside the sample: with a saturated outcome model the
                         # result is still the standardization of the SAMPLE's cell means (IPSW fits its treatment model
                         # on the sample only; AIPSW is outcome-saturated; g-transport sets A itself)
@@ -363,6 +552,20 @@ def run(chk, drv, rng, tier):
                 gtransfit_k(chk, drv, ew, dfw, covs, g, 'fw', case)
             except Exception as ex:      # noqa: BLE001
                 chk.d(False, 'GTransportFormula runs with a frequency-weight column', dict(case, impl_error=repr(ex)))
+        # ---- round 4: sampled rows in neither arm (third arm / unrecorded exposure), and non-binary outcome types
+        for g in (True, False):
+            for stab in (True, False):
+                arms_cell(chk, drv, seed, index_kind, 'IPSW', g, stab, 'column', draw_after(rng))
+            arms_cell(chk, drv, seed, index_kind, 'GTransportFormula', g, None, None, draw_after(rng))
+            arms_cell(chk, drv, seed, index_kind, 'AIPSW', g, bool(rng.integers(0, 2)), bool(rng.integers(0, 2)),
+                      draw_after(rng))
+        kind = ['normal', 'count'][di % 2]
+        sign = -1 if (kind == 'normal' and di % 4 == 2) else 1
+        for g in (True, False):
+            ytype_cell(chk, drv, seed, index_kind, kind, sign, 'GTransportFormula', g, None, None, draw_after(rng))
+            ytype_cell(chk, drv, seed, index_kind, kind, sign, 'AIPSW', g, bool(rng.integers(0, 2)),
+                       bool(rng.integers(0, 2)), draw_after(rng))
+            ytype_cell(chk, drv, seed, index_kind, kind, sign, 'IPSW', g, bool(rng.integers(0, 2)), True, draw_after(rng))
 
 
 def replay(rec):
@@ -370,6 +573,20 @@ def replay(rec):
     n = 0
     for f in rec.get('failures', []):
         c = f['case']
+        if isinstance(c.get('cell'), dict):      # round-4 cells: re-run the stored cell through the same function
+            chk = common.Check('C16', 'replay', 0)
+            with common.quiet():
+                globals()[c['cell']['fn']](chk, None, **c['cell']['args'])
+            key = repr(c['cell'])
+            print(c['cell']['fn'], c['cell']['args'])
+            for gf in chk.d_fail:
+                gc = gf['case'] if isinstance(gf['case'], dict) else {}
+                print('   FAILS:', gf['what'], '| impl', gc.get('impl', gc.get('after_reporting')), '| want',
+                      gc.get('want', gc.get('at_fit')), gc.get('impl_error', ''))
+            if not chk.d_fail:
+                print('   all predicates hold now')
+            n += bool(chk.d_fail)
+            continue
         seed = c['data']['data_seed']
         dfj, dfn, _, covs = make_frames(seed, c['data'].get('index', 'default'))
         cf = closed_form(dfn, covs)
@@ -403,13 +620,26 @@ def replay(rec):
         with common.quiet():
             grepr = {'bool': bool, 'bool_': np.bool_, 'int': int}.get(c.get('generalize_passed_as', 'bool'), bool)
             e = estimators(dfn, covs, c['generalize'], c['stabilized'], c['treatment_model'], c['estimator'], grepr)
-            ej = estimators(dfj, covs, c['generalize'], c['stabilized'], c['treatment_model'], c['estimator'])
+            at_fit = (float(e.risk_difference), float(e.risk_ratio))
+            apply_after(e, c.get('after'))      # the reporting calls of the stored case, then the results are read
+            try:
+                ej = estimators(dfj, covs, c['generalize'], c['stabilized'], c['treatment_model'], c['estimator'],
+                                positional=bool(c.get('positional_calls')))
+            except Exception as ex:      # noqa: BLE001
+                ej = ex
+        if isinstance(ej, Exception):
+            print(f['what'], '| with every argument positional in the documented order the estimator raises', repr(ej))
+            n += 1
+            continue
         g = c['generalize']
         print(f['what'], '| impl RD/RR', float(e.risk_difference), float(e.risk_ratio), '| junk-Y variant',
               float(ej.risk_difference), float(ej.risk_ratio), '| closed form', float(cf[(g, 1)] - cf[(g, 0)]),
               float(cf[(g, 1)] / cf[(g, 0)]))
+        if c.get('after'):
+            print('   reporting calls', c['after'], '| RD/RR stored by fit()', at_fit)
         bad = not (close(e.risk_difference, float(cf[(g, 1)] - cf[(g, 0)]), **TOL) and
-                   close(ej.risk_difference, e.risk_difference, rtol=1e-12, atol=1e-14))
+                   close(ej.risk_difference, e.risk_difference, rtol=1e-12, atol=1e-14) and
+                   (float(e.risk_difference), float(e.risk_ratio)) == at_fit)
         n += bad
     print('failures reproduced:', n)
     return 1 if n else 0
